@@ -388,6 +388,16 @@ def _main(a, pid):
             finally:
                 pool2.close()
         stats['determinism_pairs_checked'] = det_checked
+        if getattr(prop, 'HASHSEED_SENSITIVE', False) and det_mismatch:
+            # for this property a result that depends on the hash seed IS the violation
+            s0 = det_mismatch[0][0]
+            violations.setdefault(
+                pid + '/order-depends-on-hash-seed',
+                ({'sig': pid + '/order-depends-on-hash-seed',
+                  'msg': 'seed %s gives digest %s in one lane and %s under another '
+                         'PYTHONHASHSEED' % det_mismatch[0]},
+                 {'seed': s0, 'spec': prop.gen(s0)}))
+            det_mismatch = []
         stats['determinism_mismatches'] = det_mismatch
 
         # violations -> known / new
